@@ -64,9 +64,16 @@ pub mod polling {
             ensures r is Ok ==> self.w_deleted(fd_raw(&source)), self.w_delete_called(fd_raw(&source)),
         { unimplemented!() }
     }
+    impl Poller {
+        /// ASSUMED: creates the platform's poller (epoll instance + notification eventfd); may fail
+        #[verifier::external_body]
+        pub fn new() -> (r: std::io::Result<Poller>) { unimplemented!() }
+    }
     impl Events {
         /// the buffer holds no event (ghost)
         pub uninterp spec fn is_clear(&self) -> bool;
+        /// ASSUMED: a fresh buffer holds no event
+        #[verifier::external_body] pub fn new() -> (r: Events) ensures r.is_clear(), { unimplemented!() }
         #[verifier::external_body] pub fn clear(&mut self) ensures final(self).is_clear(), { unimplemented!() }
     }
     impl Poller {
